@@ -1400,6 +1400,22 @@ class Translator:
                     a = self.default_arg(i, callee)
             mode = sig[i] if sig and i < len(sig) else None
             text = self.expr(a)
+            nb = self.u.get('bool_narrowing_obligation')
+            inner_cast = self.skip_wrappers(a)
+            if nb and callee and callee[0].split('::')[-1] in nb.get('callees', []) and inner_cast.get('kind') == 'ImplicitCastExpr' and \
+                    inner_cast.get('castKind') in ('IntegralToBoolean', 'PointerToBoolean'):
+                # the overload that was resolved takes a bool: feeding it a wider value is lossless only if the value is 0 or 1
+                src = inner_cast['inner'][0]
+                st = self.ntype(src)
+                stext = self.expr(src)
+                desc = '[%s] value fed to %s(bool) is lossless (source type %s, expression %s)' % (
+                    nb['tag'], callee[0].split('::')[-1], norm(self.qt(src)), re.sub(r'[^A-Za-z0-9_.>()\- ]', '', stext)[:80])
+                if inner_cast.get('castKind') == 'PointerToBoolean':
+                    text = '({ __CPROVER_assert(0, "%s"); (%s != 0); })' % (desc, stext)
+                else:
+                    self.tmp += 1
+                    v = '__nb%d' % self.tmp
+                    text = '({ %s = %s; __CPROVER_assert(%s == 0 || %s == 1, "%s"); (%s != 0); })' % (st.decl(v), stext, v, v, desc, v)
             core = self.skip_wrappers(a)
             if mode == 'v':
                 out.append(text)
